@@ -514,11 +514,19 @@ class Translator:
                 node = m.consts[name]
         if node is None:
             raise Reject("module constant %s not found" % name)
-        if not (isinstance(node, ast.List) and all(isinstance(e, ast.Constant) and type(e.value) is int for e in node.elts)):
+        def lit(e):
+            if isinstance(e, ast.Constant) and type(e.value) is int:
+                return e.value
+            if isinstance(e, ast.UnaryOp) and isinstance(e.op, ast.USub) and isinstance(e.operand, ast.Constant) \
+                    and type(e.operand.value) is int:
+                return -e.operand.value
             rej(node, "module constant %s is not a list of int literals" % name)
+        if not isinstance(node, ast.List):
+            rej(node, "module constant %s is not a list of int literals" % name)
+        vals = [lit(e) for e in node.elts]
         coq = "const_" + name.lstrip("_")
         d = {"coq": coq, "params": [], "ret": tlist(Z), "fallible": False,
-             "text": "Definition %s : list Z := [%s]." % (coq, "; ".join(zlit(e.value) for e in node.elts))}
+             "text": "Definition %s : list Z := [%s]." % (coq, "; ".join(zlit(v) for v in vals))}
         self.defs[key] = d
         self.out.append(d["text"])
         return d
